@@ -514,6 +514,15 @@ def _abs_floats(lay):
     return lay
 
 
+def _clip_ints(lay):
+    """every integer buffer (also unreachable items) stays exactly representable as float32"""
+    if isinstance(lay, list) and lay and lay[0] == 'np':
+        return ['np', lay[1], lay[2], [small(x) for x in lay[3]]]
+    if isinstance(lay, list) and lay and isinstance(lay[0], str):
+        return [lay[0]] + [_clip_ints(x) if (isinstance(x, list) and x and isinstance(x[0], str)) else x for x in lay[1:]]
+    return lay
+
+
 def add_astype(rng, add, t, dst, flat):
     srcs = _leaf_dts(t, set())
     has_float = bool(srcs & {'float32', 'float64'})
@@ -532,6 +541,8 @@ def add_astype(rng, add, t, dst, flat):
     lay = G.encode(enc, t, vals)
     if has_float and dst in UNSIGNED:
         lay = _abs_floats(lay)
+    if dst in ('float32', 'float64'):
+        lay = _clip_ints(lay)
     if flat and rng.random() < 0.3:
         # n-d NumpyArray (regression for the shape[0]-only cast)
         dt = t[1]
@@ -635,12 +646,18 @@ WRAPPED_STRING = re.compile(r'\((?:ix|ixo) \w+ \([-\d ]*\) \(par (?:string|bytes
 
 
 def signature(c, impl, v):
-    if c.op == 'concat' and c.meta.get('types') and impl.startswith('err'):
+    if c.op == 'concat' and c.meta.get('types') and v.startswith('viol'):
+        # (the batch either fails to merge, or merges operands that must not be merged, e.g. bool into numbers
+        # although mergebool=False)
         if empty_between_unmergeable(bool(c.meta.get('mb', 1)), c.meta['types']):
             return 'concat-emptyarray-between-unmergeable'
-    if (v.startswith('viol type') or v.startswith('viol mergeable')) and WRAPPED_STRING.search(c.body()):
-        # a string / bytestring array behind an IndexedArray / option node is not mergeable with a plain one
-        return 'mergeable-parameters-of-wrapper-node'
+    if v.startswith('viol type') or v.startswith('viol mergeable') or v.startswith('viol closure'):
+        b = c.body()
+        if ('(par string' in b or '(par bytestring' in b) and (WRAPPED_STRING.search(b) or '(empty)' in b or '(un ' in b):
+            # mergeable() compares the __array__ parameter of the two top nodes even when one of them is a wrapper
+            # (IndexedArray / option node / UnionArray) or an EmptyArray: a string array behind such a node is "not
+            # mergeable" with a plain string array -> needless unions, and unions nested in unions
+            return 'mergeable-parameters-of-wrapper-node'
     return None
 
 
